@@ -271,6 +271,10 @@ func runBM25History(r *rand.Rand, nops int, allowReadd bool, t *Trace) *Case {
 			}
 			var res []comet.TextResult
 			var e error
+			if r.Intn(5) == 0 { // the builder is executed twice: the second answer is the one that is judged
+				catchPanic(func() { s.Execute() })
+				t.Stat("bm25.search_builder_reused")
+			}
 			pan := catchPanic(func() { res, e = s.Execute() })
 			code := errCode(e)
 			if pan {
